@@ -255,3 +255,18 @@ Definition diagram_lines (cells : list cell) (ps : list pair) : list (Z * Z * Z 
 (* value-level view of a pair list, restricted to the pairs whose characteristic q divides (q = 1: all) *)
 Definition value_view (cells : list cell) (q : Z) (ps : list pair) : list (Z * Z * option Z) :=
   map (fun x => value_bar cells (fst x)) (filter (fun x => snd x mod q =? 0) ps).
+
+(* ------------------------------------------------------------------ multiset equality of diagrams (by counting) *)
+Definition bar := (Z * Z * option Z)%type.
+Definition bar_eqb (x y : bar) : bool :=
+  (fst (fst x) =? fst (fst y)) && (snd (fst x) =? snd (fst y)) &&
+  match snd x, snd y with Some a, Some b => a =? b | None, None => true | _, _ => false end.
+Definition count_bar (x : bar) (l : list bar) : nat := length (filter (bar_eqb x) l).
+Definition msame (l1 l2 : list bar) : bool :=
+  forallb (fun x => (count_bar x l1 =? count_bar x l2)%nat) (l1 ++ l2).
+(* vertex lists strictly increasing *)
+Fixpoint increasing (s : simplex) : bool :=
+  match s with
+  | x :: ((y :: _) as s') => (x <? y) && increasing s'
+  | _ => true
+  end.
